@@ -1753,6 +1753,19 @@ def to_string(E, frame, b, t, sts, c, quiet):
     targ = c.get('rtargs') or c.get('targs') or []
     out = sts
     if targ:
+        tt = E.types.get(targ[0])
+        if tt['k'] == 'str' or E.types.is_seq_adt(tt):
+            # Display for str / String writes the bytes unchanged
+            res = []
+            for st in sts:
+                v, _ = seq_of(E, st, E.operand(st, frame, t['args'][0]), targ[0])
+                if v[0] == 'S':
+                    E.write_dest(st, frame, t, ('S', st.resolve(v[1]), v[2], v[3]))
+                else:
+                    E.write_dest(st, frame, t, ('S', mk_int(0, U63), mk_int(0, 255), None))
+                res.append(st)
+            return res
+    if targ:
         ty, names = type_display_candidates(E, targ[0])
         bodies = []
         for n in names:
@@ -2125,3 +2138,47 @@ def str_strip_prefix(E, st, frame, b, t, c, args):
         if sch in URL_SPECIAL or sch == b'file':
             return ('E', None, (some,))       # WHATWG: the path of a special URL starts with "/"
     return ('E', T('e', site), ((0, ()), some))
+
+
+# ------------------------------------------------------------------------------------------
+# MutexGuard: deref / deref_mut yield the one guarded value (a stable pointee cell per guard)
+
+@model(['deref', 'deref_mut'], pred=lambda c: 'MutexGuard<' in (c.get('rself') or ''))
+def guard_deref(E, st, frame, b, t, c, args):
+    g = E.expand(args[0])
+    gty = pointee_ty(E, frame, t, 0)
+    inner_ty = None
+    if gty is not None:
+        ga = E.types.get(gty).get('args') or []
+        inner_ty = ga[0] if ga else None
+    if g[0] == 'R' and g[1] is not None:
+        gv = E.read_lv(st, (g[1], g[2]), gty)
+        # the guard itself may be reached through another reference (&mut MutexGuard)
+        if gv[0] == 'R' and gv[1] is not None:
+            g = gv
+            gv = E.read_lv(st, (g[1], g[2]), gty)
+        org = gv[2] if gv[0] == 'T' and gv[2] is not None else ('cell', g[1], g[2])
+        cell = ('o', (org, 'guarded'))
+        E.pointee_init(st, cell, inner_ty)
+        return ('R', cell, (), True)
+    return ('R', None, (), True)
+
+
+# ratatui TableState: `selected` is kept as a ghost payload of the (otherwise opaque) value
+@model(['selected'], pred=lambda c: 'TableState' in (c.get('rself') or '') and c.get('rcrate') == 'ratatui')
+def tablestate_selected(E, st, frame, b, t, c, args):
+    r = E.expand(args[0])
+    dty = E.dest_ty(frame, t)
+    if r[0] == 'R' and r[1] is not None:
+        v = E.read_lv(st, (r[1], r[2]), None)
+        if v[0] == 'O' and v[1] == 'tablestate':
+            return v[2][0]
+    return E.expand(('T', dty, E.site(frame, b, 'sel')))
+
+
+@model(['select'], pred=lambda c: 'TableState' in (c.get('rself') or '') and c.get('rcrate') == 'ratatui')
+def tablestate_select(E, st, frame, b, t, c, args):
+    r = E.expand(args[0])
+    if r[0] == 'R' and r[1] is not None:
+        E.write_lv(st, (r[1], r[2]), ('O', 'tablestate', (args[1],)))
+    return ('A', ())
